@@ -25,8 +25,10 @@ MANIFEST = dict(
           "that the SI magnitude of the result is the mathematical operation applied to the operands' SI magnitudes, that its "
           "dimension is the one of dimensional analysis, that sums/differences carry the left operand's unit, and that the result "
           "unit agrees with its registry (so programs of any depth are covered by induction on the expression DAG; depth-2 programs "
-          "are run as a sanity check). Bounded: operation list, unit shapes, payload extents <= 2; cancelling unit pairs use table "
-          "units (concrete scales, symbolic values); rounding is outside."),
+          "are run as a sanity check). Bounded: operation list, unit shapes, payload extents <= 2; unit pairs that cancel PAIRWISE use "
+          "table units (concrete scales, symbolic values); partly cancelling quotients/products (pairwise coefficient x a left-over "
+          "group of derived and base units that is a pure number only as a whole) carry the group with symbolic scales; rounding is "
+          "outside."),
     design="DESIGN.md section 4 C04",
     technique="symbolic execution of the real Python code over z3 real terms; SMT (QF_NRA / mixed Int-Real with ToInt) obligations per path; counterexample replay")
 EXPLANATION = (
@@ -38,7 +40,13 @@ EXPLANATION = (
     "independently in the harness (+ - * /, max/min, abs, neg, rational powers and roots via witness variables, hypot, "
     "floor/mod via ToInt, comparisons as booleans with near-ties inside unyt's 1e-9 same-unit band excused, sin/cos/tan as "
     "uninterpreted functions of the radian magnitude), dims(result) = dimensional analysis, units(result) = left operand's for "
-    "+/-, and Unit(str(result.units), registry) has the same scale (well-formedness invariant => induction over programs)."
+    "+/-, and Unit(str(result.units), registry) has the same scale (well-formedness invariant => induction over programs). "
+    "Unit expressions of * and / are taken through all three outcomes of Unit.simplify: nothing cancels, every same-dimension pair "
+    "cancels into the numeric coefficient that is multiplied in at the end of __array_ufunc__, and PARTIAL cancellation - a pairwise "
+    "coefficient (g against kg) next to a left-over group that is dimensionless only as a whole (xv*xs/xa with xv a velocity atom, "
+    "xf*xs**2/(xm*xa), mJ/(cm*N)), whose scale the clean-up block after the ufunc call folds into the data; the group's scale is a "
+    "z3 term (no two of its factors cancel, so nothing symbolic is written into a sympy expression), so both bookkeeping steps are "
+    "decided together for all scales."
 )
 BOUNDS = {
     "quick": "ops {+ - * / (operator, ufunc, in-place, out=), true_divide, maximum/minimum/fmax/fmin, hypot, remainder/mod/fmod/floor_divide/"
@@ -46,18 +54,30 @@ BOUNDS = {
              "the 13 rational exponents of E, add/multiply reduce/accumulate/outer and sum/prod/cumsum (methods and np.*), dot/matmul/"
              "inner/vdot up to 2x2 @ 2, sin/cos/tan of angle units, np.clip, 10 depth-2 programs}; operand unit shapes {atomic, k/m-"
              "prefixed, ua*ub, ua/ub, ua**2 with symbolic scales; table pairs that cancel in products: km~m, m~cm, hr~min, km/hr~m/s, "
-             "km/m, cm**2~1/m ... with concrete scales and symbolic values; bare numbers; SAME SPELLING WITH DIFFERENT SCALE: the same "
+             "km/m, cm**2~1/m ... with concrete scales and symbolic values; PARTLY CANCELLING pairs (atoms of derived dimension xv "
+             "velocity, xf force, xj energy with symbolic scales, and table units N, dyn, J, mJ, erg, W, Pa, mile, mph): 16 quotient pairs "
+             "with symbolic group scale {group only: xv~xa/xs, xf~xm*xa/xs**2, xj~xf*xa; coefficient x group: xv*g~kg*xa/xs, "
+             "xv*g**2~kg**2*xa/xs, xj/hr~xf*xa/min; coefficient inside one operand: xv*g/kg~xa/xs; group x residual dimension: "
+             "xv*g*xi~kg*xa/xs; the group as one operand: xv*xs/xa~xp, xm~xv*xs/xa; both operand orders} + 9 table quotients "
+             "(mJ/cm**2~N/m, g*W*hr~kg*J, J/cm~N, N~kg*m/s**2, erg/cm**3~Pa ...) in all four call forms of divide, true_divide, "
+             "divide.outer, shapes ()/(2,) with broadcasting for four of them; 11 product pairs of reciprocal dimensions (xv~xs/xa, "
+             "xv*g~xs/kg/xa, mJ/cm**2~m/N ...) in all forms of multiply, multiply.outer, dot/matmul; the same pairs as same-dimension "
+             "operands of + - max hypot < ==, the mod family and divmod; 3 depth-2 programs over them; bare numbers; SAME SPELLING WITH DIFFERENT SCALE: the same "
              "unit names in two registries with independent symbolic scales, and one registry before/after the real registry.modify, "
              "for the additive family, comparisons, max/min, hypot, mod family in all four call forms}; payload shapes (), (2,), (2,2) with "
              "broadcasting; dimension families length, mass, time, current, angle, scaled-dimensionless, offset-free temperature; a "
              "selection of op x form x unit-pair x shape combinations",
     "thorough": "same ops; every op x every form x every listed unit pair (9 same-spelling shapes incl. prefixed/compound/angle/temperature) x payload shapes (), (2,)~(), ()~(2,), (2,)~(2,) and selected "
                 "(2,2); +, -, sqrt swept over every dimension found in the registry at run time and *, / over every ordered pair of them "
-                "(except pairs whose product/quotient is dimensionless: cancellation with symbolic scales)",
+                "(except pairs whose product/quotient is dimensionless: cancellation with symbolic scales); every partly cancelling "
+                "pair x every form of divide/true_divide/multiply x shapes (), (2,)~(), ()~(2,), (2,)~(2,), selected (2,2), .outer of all of "
+                "them; additive/comparison/mod families and divmod over the 7 derived~base spellings",
 }
 OUTSIDE = ("IEEE rounding/overflow/nan (A1); integer and complex payloads (C17); units with an offset (C08); exp/log/hyperbolic/non-angle "
            "trig, logaddexp, rounding family, frexp/modf/spacing, floor-division of different dimensions (as the property says); "
            "cancellation of same-dimension unit factors with SYMBOLIC scales (sympy cannot hold a z3 term: those pairs use table units, "
+           "a partly cancelling pair has its COEFFICIENT pair from the table and on a dimension that no symbolic atom of the pair has - "
+           "the left-over group is symbolic, the pairwise coefficient is one of 1e-3, 1e-6, 1/60, 100 ...; "
            "and floor_divide/divmod of two differently spelled symbolic-scale units assume the scales more than 1e-3 apart; the registry.modify variant uses atomic units only: stale prefixed/compound strings after modify are C12's); power with "
            "non-scalar exponents; roots of negative values; matmul beyond 2x2; (2,2)@(2,2) with inexact table coefficients; the "
            "ndarray.clip method and multiply.accumulate (both raise for every input on this tree; np.clip with mixed units raises - a "
@@ -77,13 +97,20 @@ ASSUMPTIONS = [
 # harness atoms: name -> attribute of unyt.dimensions (all rows are prefixable; scales are symbols <name>_s > 0)
 ATOMS = {"xa": "length", "xb": "length", "xc": "length", "xs": "time", "xt": "time", "xm": "mass", "xn": "mass",
          "xi": "current_mks", "xg": "angle", "xh": "angle", "xp": "dimensionless", "xq": "dimensionless",
-         "xtk": "temperature", "xtl": "temperature", "xd": None, "xe": None}
+         "xtk": "temperature", "xtl": "temperature", "xd": None, "xe": None,
+         # atoms of DERIVED dimensions: a quotient like xv/(xa/xs) has no pair of factors that cancels, the group xv*xs/xa is
+         # dimensionless only as a whole (and its scale is a z3 term, because no factor is written into the sympy expression)
+         "xv": "velocity", "xf": "force", "xj": "energy"}
 NAMES = list(ATOMS)
 
 # independent table of the concrete units used where unit factors cancel (exact definitions)
 TABLE = {"m": (1.0, "length"), "cm": (0.01, "length"), "km": (1000.0, "length"), "mm": (0.001, "length"),
          "s": (1.0, "time"), "min": (60.0, "time"), "hr": (3600.0, "time"), "ms": (0.001, "time"),
          "kg": (1.0, "mass"), "g": (0.001, "mass"),
+         # named derived units (SI definitions; mile = 1609.344 m exactly): spelled next to base units they give unit expressions
+         # that cancel only PARTLY (N against kg*m/s**2: nothing cancels pairwise, the group is a pure number only as a whole)
+         "N": (1.0, "force"), "dyn": (1e-5, "force"), "J": (1.0, "energy"), "mJ": (1e-3, "energy"), "erg": (1e-7, "energy"),
+         "W": (1.0, "power"), "Pa": (1.0, "pressure"), "mile": (1609.344, "length"), "mph": (1609.344 / 3600.0, "velocity"),
          "radian": (1.0, "angle"), "degree": (math.pi / 180.0, "angle"), "arcmin": (math.pi / 10800.0, "angle"),
          "dimensionless": (1.0, "dimensionless")}
 
@@ -829,7 +856,7 @@ def make_outer_case(ufn, spec0, spec1, sh0, sh1, tag=""):
     def h(ctx):
         reg = ctx.registry([])
         A, x, s0, d0 = spec0.quantity(ctx, reg, "x", sh0)
-        Bq, y, s1, d1 = spec1.quantity(ctx, reg, "y", sh1)
+        Bq, y, s1, d1 = spec1.quantity(ctx, reg, "y", sh1, nonzero=b.ynonzero)
         ua = getattr(A, "units", None)
         r = getattr(np, ufn).outer(A, Bq)
         xs = [xv for xv in elements(x) for _ in elements(y)]
@@ -958,6 +985,13 @@ PROGRAMS = {
     "maximum(a,b)/c": ([U_("xa/xs"), U_("kxb/xt"), U_("xm")], [None, None, "nonzero"],
                        lambda np_, a, b, c: np_.maximum(a, b) / c, lambda a, b, c: pmax(a, b) / c, lambda a, b, c: a / c,
                        lambda A: band(A[0] / A[2], A[1] / A[2])),
+    "a/b+c partly cancelling": ([U_("xv*g"), U_("kg*xa/xs"), U_("dimensionless")], [None, "nonzero", None],
+                                lambda np_, a, b, c: a / b + c, lambda a, b, c: a / b + c, lambda a, b, c: a / a,
+                                lambda A: band(A[0] / A[1], A[2])),
+    "a/b*c partly cancelling": ([U_("mJ/cm**2"), U_("N/m"), U_("xm")], [None, "nonzero", None],
+                                lambda np_, a, b, c: a / b * c, lambda a, b, c: a / b * c, lambda a, b, c: c, None),
+    "sqrt(a/b) partly cancelling": ([U_("xv*g"), U_("kg*xa/xs")], ["pos", "pos"],
+                                    lambda np_, a, b: np_.sqrt(a / b), lambda a, b: ppow(a / b, F(1, 2)), lambda a, b: a / a, None),
     "(a/b)**2+c": ([U_("km"), U_("m"), U_("dimensionless")], [None, "nonzero", None],
                    lambda np_, a, b, c: (a / b) ** 2 + c, lambda a, b, c: (a / b) * (a / b) + c, lambda a, b, c: a / a,
                    lambda A: band((A[0] / A[1]) * (A[0] / A[1]), A[2])),
@@ -1014,6 +1048,23 @@ DIV_ONLY_PAIRS = ["xa*xs~xa", "xa**2~xa"]          # sympy cancels the shared sy
 # cancelling pairs: table units (concrete scales), values symbolic; xm is a symbolic-scale bystander
 MUL_PAIRS_TABLE = ["km~1/m", "km/hr~min", "cm**2~1/m", "m~g/cm", "xm*km~1/m", "km/m~s", "hr/min~xa"]
 DIV_PAIRS_TABLE = ["m~cm", "km~m", "hr~min", "km/hr~m/s", "m**2~cm", "xm*km~m", "xm~km/m", "km/m~cm/m"]
+# PARTIAL cancellation: compound operands whose quotient (product) unit cancels only partly - factors that cancel pairwise into a
+# numeric coefficient (g against kg: table units, concrete scales) next to a LEFT-OVER GROUP that is a pure number only as a whole
+# (xv*xs/xa, xf*xs**2/(xm*xa), mJ/(cm*N) ...: no two factors of it cancel, so its scale may be a z3 term), with or without a
+# residual dimension (xi). The coefficient pair must not share a dimension with a symbolic atom (that pair would cancel with a
+# symbolic value). Quotients of equal dimensions, products of reciprocal dimensions, the coefficient inside one operand.
+PARTIAL_DIV = ["xv~xa/xs", "xa/xs~xv", "xf~xm*xa/xs**2", "xj~xf*xa", "xa*xf~xj",        # group only (coefficient 1)
+               "xv*g~kg*xa/xs", "kg*xa/xs~xv*g", "xv*g**2~kg**2*xa/xs", "xj/hr~xf*xa/min",   # coefficient x group
+               "xv*g/kg~xa/xs", "xv~g*xa/xs/kg",                                                 # coefficient inside one operand
+               "xv*g*xi~kg*xa/xs", "xv*g~kg*xi*xa/xs",                                        # group x residual dimension
+               "xv*xs/xa~xp", "xp~xv*xs/xa", "xm~xv*xs/xa"]                                  # the group as one operand
+PARTIAL_DIV_TABLE = ["mJ/cm**2~N/m", "N/m~mJ/cm**2", "g*W*hr~kg*J", "g*mile/hr~kg*mph", "J/cm~N", "N~kg*m/s**2", "dyn~g*cm/s**2",
+                     "erg/cm**3~Pa", "mJ/cm**2~kg/s**2"]
+PARTIAL_MUL = ["xv~xs/xa", "xs/xa~xv", "xf~xs**2/xm/xa", "xv*g~xs/kg/xa", "xs/kg/xa~xv*g", "xv*g*xi~xs/kg/xa", "xv*xs/xa~xm"]
+PARTIAL_MUL_TABLE = ["mJ/cm**2~m/N", "m/N~mJ/cm**2", "g*W*hr~1/kg/J", "N~s**2/kg/m"]
+# the same operand pairs (equal dimensions spelled with derived and with base units) for the additive / comparison / mod families
+PARTIAL_ADD = ["xv~xa/xs", "xa/xs~xv", "xf~xm*xa/xs**2", "xv*g~kg*xa/xs"]
+PARTIAL_ADD_TABLE = ["mJ/cm**2~N/m", "N~kg*m/s**2", "g*W*hr~kg*J"]
 SAME_SPELLING = ["xa~xa", "kxa~kxa", "xa~kxa", "xa*xs~xa*xs", "xa/xs~xa/xs", "xa**2~xa**2", "xg~xg", "xp~xp", "xtk~xtk"]
 UNARY_SPECS = ["xa", "kxa", "xa*xs", "xa/xs", "xa**2", "km/m", "cm/m", "hr/min", "xp", "xg"]
 ANGLE_SPECS = ["xg", "kxg", "mxg", "radian", "degree", "arcmin", "degree*km/m", "xg*km/m"]
@@ -1092,6 +1143,25 @@ def cases(tier, mods):
         binary(["divide", "true_divide"], DIV_ONLY_PAIRS + DIV_PAIRS_TABLE, SC + ARR)
         binary(["multiply", "divide"], ["xa~xm", "xa~kxm"], ARR2)
         binary(["multiply", "divide"], ["xa~xa", "xa/xs~xa/xs"], SC + ARR[2:], same=True)
+    # partial cancellation: pairwise coefficient x left-over group that is dimensionless only as a whole (see PARTIAL_DIV)
+    if quick:
+        binary(["divide"], PARTIAL_DIV + PARTIAL_DIV_TABLE, SC)
+        binary(["true_divide"], ["xv~xa/xs", "xv*g~kg*xa/xs", "mJ/cm**2~N/m"], SC)
+        binary(["divide"], ["xv~xa/xs", "xv*g~kg*xa/xs", "xv*g*xi~kg*xa/xs", "mJ/cm**2~N/m"], ARR)
+        binary(["multiply"], PARTIAL_MUL + PARTIAL_MUL_TABLE, SC)
+        binary(["multiply"], ["xv*g~xs/kg/xa", "mJ/cm**2~m/N"], ARR)
+        binary(["add", "subtract", "maximum", "hypot", "less", "equal"], PARTIAL_ADD + PARTIAL_ADD_TABLE, SC, forms=["op", "ufunc"])
+        binary(modops, ["xv~xa/xs", "xv*g~kg*xa/xs", "mJ/cm**2~N/m"], SC, forms=["op", "ufunc"])
+    else:
+        binary(["divide", "true_divide"], PARTIAL_DIV + PARTIAL_DIV_TABLE, SC + ARR)
+        binary(["divide"], ["xv*g~kg*xa/xs", "mJ/cm**2~N/m"], ARR2)
+        binary(["multiply"], PARTIAL_MUL + PARTIAL_MUL_TABLE, SC + ARR)
+        binary(addops + cmpops, PARTIAL_ADD + PARTIAL_ADD_TABLE, SC + ARR[2:])
+        binary(modops, PARTIAL_ADD + PARTIAL_ADD_TABLE, SC)
+    for p in (["xv~xa/xs", "xv*g~kg*xa/xs", "mJ/cm**2~N/m"] if quick else PARTIAL_DIV + PARTIAL_DIV_TABLE):
+        add(make_outer_case("divide", *pair(p), (2,), (2,)))
+    for p in (["xv*g~xs/kg/xa", "mJ/cm**2~m/N"] if quick else PARTIAL_MUL + PARTIAL_MUL_TABLE):
+        add(make_outer_case("multiply", *pair(p), (2,), (2,)))
     # same spelling, different scale: the same unit names in two registries / before and after registry.modify
     if quick:
         binary(addops + cmpops + modops, ["xa~xa"], SC, variant="tworeg")
@@ -1107,7 +1177,8 @@ def cases(tier, mods):
         binary(modops, ["xa~xa"], SC, variant="modify")
         binary(addops[:3], ["xa~xa"], ARR2, variant="tworeg")
     # divmod
-    dm_pairs = ["xa~xb", "km~m"] if quick else ["xa~xb", "xa/xs~xb/xt", "m~cm", "km~m"]
+    dm_pairs = (["xa~xb", "km~m", "xv*g~kg*xa/xs", "mJ/cm**2~N/m"] if quick else
+                ["xa~xb", "xa/xs~xb/xt", "m~cm", "km~m", "xv~xa/xs", "xv*g~kg*xa/xs", "mJ/cm**2~N/m", "N~kg*m/s**2"])
     for f in (["op", "ufunc"] if quick else ["op", "ufunc", "out"]):
         for p in dm_pairs:
             add(make_divmod_case(f, *pair(p)))
@@ -1148,7 +1219,8 @@ def cases(tier, mods):
         add(make_outer_case("multiply", *pair(p), (2,), (2,)))
     # dot / matmul
     dshapes = [((2,), (2,)), ((2, 2), (2,)), ((2, 2), (2, 2))]
-    dpairs = ["xa~xm", "kxa~xb", "km~1/m"] if quick else ["xa~xm", "kxa~xb", "xa/xs~xm", "km~1/m", "km/hr~min", "xa~bare", "xa~xa"]
+    dpairs = (["xa~xm", "kxa~xb", "km~1/m", "xv*g~xs/kg/xa"] if quick else
+              ["xa~xm", "kxa~xb", "xa/xs~xm", "km~1/m", "km/hr~min", "xa~bare", "xa~xa", "xv*g~xs/kg/xa", "mJ/cm**2~m/N"])
     for f in DOT_FORMS:
         for p in dpairs:
             for sh0, sh1 in (dshapes[:2] if quick else dshapes):
